@@ -961,3 +961,201 @@ pub fn run_c10_check(tier: &str, seed: u64, workers: u64, buffers_override: Opti
     println!("OK property={} cases={} distinct_nontrivial={} wall_s={:.1}", prop, total.cases, all_keys.len(), wall);
     0
 }
+
+// =============================================================================================
+// C19
+// =============================================================================================
+
+fn spawn_workers(exe: &std::path::Path, sub: &[&str], seed: u64, total: u64, workers: u64, deadline_s: u64) -> (Agg, Vec<String>, bool) {
+    let mut children = vec![];
+    for w in 0..workers {
+        let count = (total + workers - 1 - w) / workers;
+        if count == 0 {
+            continue;
+        }
+        let mut cmd = Command::new(exe);
+        cmd.args(sub).args(["--seed", &seed.to_string(), "--start", &w.to_string(), "--stride", &workers.to_string(), "--count", &count.to_string(), "--deadline", &deadline_s.to_string()]);
+        children.push(cmd.stdout(Stdio::piped()).stderr(Stdio::null()).spawn().expect("spawn"));
+    }
+    let mut agg = Agg::default();
+    let mut extra = vec![];
+    let mut ok = true;
+    let mut handles = vec![];
+    for mut c in children {
+        handles.push(std::thread::spawn(move || {
+            let so = c.stdout.take().unwrap();
+            let lines: Vec<String> = BufReader::new(so).lines().map_while(Result::ok).collect();
+            let st = c.wait().map(|s| s.success()).unwrap_or(false);
+            (lines, st)
+        }));
+    }
+    for h in handles {
+        let (lines, st) = h.join().unwrap();
+        for l in lines {
+            if l.starts_with("V19 ") {
+                extra.push(l[4..].to_string());
+            } else {
+                parse_worker_line(&l, &mut agg);
+            }
+        }
+        ok &= st;
+    }
+    (agg, extra, ok)
+}
+
+pub fn run_c19_check(tier: &str, seed: u64, workers: u64, runs_override: Option<u64>) -> i32 {
+    let t0 = Instant::now();
+    let prop = "C19";
+    let quick = tier != "thorough";
+    let findings = load_findings();
+    let exe_b = std::path::PathBuf::from(format!("{}/target/b/release/adsim", VERIF_DIR));
+    let exe_c = std::path::PathBuf::from(format!("{}/target/c/release/adsim-c19", VERIF_DIR));
+    let total = runs_override.unwrap_or(if quick { 40_000 } else { 3_000_000 });
+    let diff_runs: u64 = if quick { 1600 } else { 40_000 };
+    println!("VERIF_SEED={} property={} tier={} schedules={} differential_runs={} workers={}", seed, prop, tier, total, diff_runs, workers);
+    let mut violations: Vec<(String, String)> = vec![];
+    let mut harness_error = false;
+    let replays_dir = format!("{}/replays", VERIF_DIR);
+    let _ = std::fs::create_dir_all(&replays_dir);
+
+    // clause "can be shared across threads": the thread-safe configuration must compile (Engine: Send + Sync
+    // is a static assertion inside the crate). ./check leaves the compiler output here if it did not.
+    let b_fail = format!("{}/target/build-b.failed", VERIF_DIR);
+    if std::path::Path::new(&b_fail).exists() {
+        let dst = format!("{}/C19-thread-safe-build-does-not-compile.log", replays_dir);
+        let _ = std::fs::copy(format!("{}/target/build-b.log", VERIF_DIR), &dst);
+        violations.push(("the --no-default-features (thread-safe) configuration no longer compiles while the default one does: the engine cannot be shared across threads".into(), dst));
+    }
+
+    let (kf_lines, wv, witness_report) = check_witnesses(prop, &findings, "replay");
+    for l in &kf_lines {
+        println!("{}", l);
+    }
+    violations.extend(wv);
+
+    let mut agg = Agg::default();
+    let mut diffs = 0u64;
+    let mut compared = 0u64;
+    if violations.is_empty() {
+        // clause 1: schedules
+        let (a, v19, ok) = spawn_workers(&exe_c, &["worker"], seed, total, workers, if quick { 200 } else { 1700 });
+        agg = a;
+        if !ok {
+            eprintln!("harness error: a shuttle worker died");
+            harness_error = true;
+        }
+        let mut seen = BTreeSet::new();
+        for raw in &v19 {
+            let v: Value = match serde_json::from_str(raw) {
+                Ok(v) => v,
+                Err(_) => continue,
+            };
+            let class = format!("{}/{}", v["violation"]["oracle"].as_str().unwrap_or(""), v["violation"]["what"].as_str().unwrap_or(""));
+            if seen.contains(&class) || seen.len() >= 3 {
+                continue;
+            }
+            seen.insert(class.clone());
+            let sd = v["seed"].as_u64().unwrap_or(0);
+            let rawp = format!("{}/C19-{}-raw.json", replays_dir, sd);
+            std::fs::write(&rawp, raw).unwrap();
+            let minp = format!("{}/C19-{}.json", replays_dir, sd);
+            let mo = Command::new(&exe_c).args(["minimize", &rawp, &minp]).stderr(Stdio::null()).output().expect("spawn");
+            let path = if mo.status.code() == Some(0) && std::path::Path::new(&minp).exists() { minp.clone() } else { rawp.clone() };
+            let ro = Command::new(&exe_c).args(["replay", &path]).stderr(Stdio::null()).output().expect("spawn");
+            let rout = String::from_utf8_lossy(&ro.stdout).to_string();
+            if ro.status.code() == Some(1) && rout.contains("REPRODUCED") {
+                if path == minp {
+                    let _ = std::fs::remove_file(&rawp);
+                }
+                violations.push((format!("{} : {}", class, v["violation"]["got"].as_str().unwrap_or("").chars().take(300).collect::<String>()), path));
+            } else {
+                eprintln!("harness error: C19 schedule violation (seed {}) did not replay: exit {:?} {}", sd, ro.status.code(), rout);
+                harness_error = true;
+            }
+        }
+        // clause 2: the two feature configurations answer identically (C06 histories, seed for seed)
+        let exe_a = self_exe();
+        let (da, _, oka) = spawn_workers(&exe_a, &["worker", "C06"], seed, diff_runs, workers, 600);
+        let (db, _, okb) = spawn_workers(&exe_b, &["worker", "C06"], seed, diff_runs, workers, 600);
+        if !oka || !okb {
+            eprintln!("harness error: a differential worker died");
+            harness_error = true;
+        }
+        for (idx, (d, _)) in &da.digests {
+            if let Some((d2, _)) = db.digests.get(idx) {
+                compared += 1;
+                if d != d2 {
+                    diffs += 1;
+                    if diffs <= 1 {
+                        // write the trace of that run as the replay artefact
+                        let (t, _) = hist::run_seed(crate::exec::Check::C06, seed, *idx);
+                        let p = format!("{}/C19-config-differential-{}.json", replays_dir, t.seed);
+                        let mut t = t;
+                        t.note = format!("event-log digest differs between the default build ({:x}) and the thread-safe build ({:x}); replay with both binaries: target/a/release/adsim replay / target/b/release/adsim replay", d, d2);
+                        std::fs::write(&p, serde_json::to_string_pretty(&t).unwrap()).unwrap();
+                        violations.push((format!("default and thread-safe builds answer differently for history run {}", idx), p));
+                    }
+                }
+            }
+        }
+        for t in db.violations.iter().take(1) {
+            // the thread-safe build violates C06 where the default one does not
+            if !da.violations.iter().any(|x| x.seed == t.seed) {
+                let p = format!("{}/C19-threadsafe-build-history-{}.json", replays_dir, t.seed);
+                std::fs::write(&p, serde_json::to_string_pretty(t).unwrap()).unwrap();
+                violations.push(("thread-safe build fails a history check that the default build passes".into(), p));
+            }
+        }
+    }
+    let wall = t0.elapsed().as_secs_f64();
+    let g = |k: &str| agg.stats.get(k).copied().unwrap_or(0);
+    let ev = json!({
+        "property_id": prop,
+        "tier": if quick { "quick" } else { "thorough" },
+        "seed": seed,
+        "level": "exploration",
+        "wall_s": wall,
+        "violations": violations.len(),
+        "coverage": {
+            "evaluations": agg.runs,
+            "distinct_nontrivial": agg.nontrivial_shapes.len(),
+            "rule": "one evaluation = one shuttle execution (one seeded schedule) of a generated scenario: the real thread-safe build of the crate (sources of /repo with std::sync/std::thread redirected to shuttle), one shared Arc<Engine> or Arc<Blocker> with regex-heavy rules, 2-4 threads x 1-6 mixed queries (network, csp, cosmetic; on the blocker also set_regex_discard_policy / discard_regex / debug info), aggressive discard policy and a clock that advances on every read so cleanup, discard and recompile happen inside critical sections, with scheduling points inside RegexManager. Each concurrent answer is compared with the answer of a twin engine queried sequentially. Non-trivial: >= 2 threads and >= 1 regex-manager call; distinct = distinct (scenario seed, digest of yield/clock/probe counters of the execution).",
+            "samples": agg.samples,
+            "exhaustive": false,
+            "runs_per_hour": if wall > 0.0 { (agg.runs as f64 / wall * 3600.0) as u64 } else { 0 },
+            "distinct_execution_digests": agg.states.len(),
+            "schedulers": {"random": g("scheduler_random"), "pct_depth1": g("scheduler_pct1"), "pct_depth2": g("scheduler_pct2"), "pct_depth3": g("scheduler_pct3")},
+            "threads_total": g("threads"),
+            "queries_total": g("queries"),
+            "shared_engine_runs": g("shared_engine_runs"),
+            "shared_blocker_runs": g("shared_blocker_runs"),
+            "scheduling_points_reached_inside_regex_manager": g("yield_points_reached"),
+            "simulated_clock_reads": g("clock_reads"),
+            "faults_injected": {
+                "preemption_points_inside_critical_section": g("yield_points_reached"),
+                "cleanup_fired": g("probe_cleanup_fired"),
+                "regex_discarded_by_cleanup": g("probe_cleanup_discarded"),
+                "regex_discarded_explicitly": g("probe_explicit_discard"),
+                "regex_recompiled_after_discard": g("probe_recompiled"),
+            },
+            "configuration_differential": {"history_runs_compared": compared, "digest_differences": diffs},
+            "witnesses": witness_report,
+            "components_real": ["adblock crate from /repo working tree, thread-safe configuration (--no-default-features + embedded-domain-resolver, full-regex-handling, regex-debug-info)", "regex, serde, seahash, addr (unmodified)"],
+            "components_stub": ["std::sync::Mutex / std::thread -> shuttle (textual redirection in a generated copy of /repo/src)", "thread scheduler: shuttle RandomScheduler / PctScheduler, seeded", "clock: simulated, advances on every read", "libc getrandom: interposed"],
+        },
+        "assumptions": ["shuttle preempts only at synchronisation operations and at the hook's scheduling points inside RegexManager: a data race on memory not guarded by the mutex is outside its view", "the static Send + Sync assertion in the crate is checked by compiling the thread-safe configuration"],
+    });
+    write_evidence(prop, &ev);
+    if harness_error {
+        return 2;
+    }
+    if !violations.is_empty() {
+        for (what, path) in &violations {
+            println!("VIOLATION property={} replay={}", prop, path);
+            println!("  {}", what);
+        }
+        return 1;
+    }
+    println!("OK property={} schedules={} distinct_nontrivial={} differential_runs={} wall_s={:.1}", prop, agg.runs, agg.nontrivial_shapes.len(), compared, wall);
+    0
+}
